@@ -259,6 +259,7 @@ SESSION4 = {
  "C13": " Matrices of 4600-6500 taxa (thorough: up to 9000) in BOTH element types are read through indexed_iter / min / max / get against the integer inverse index.",
  "C14": " Labels that read as numbers (101, 7, 1e3, inf); every fifth random matrix also travels through to_file / from_file (fresh path or existing longer file, file content = to_phylip); square texts with ONE diagonal entry replaced (other spellings of zero accepted, negative / tiny / infinite / NaN rejected).",
  "C15": " Non-negativity is judged WITHOUT tolerance; decimal matrices with many ties (tenths, correctly rounded) are judged by the oracles on the real result (this found the negative-branch defect repaired by the clamp); the clamp is part of the executable model (UPG.upgmaC, Props/C15Clamp: equal to the unclamped transcription on the property's domain, non-negative lengths for EVERY input) and matrices with negative entries are compared with it.",
+ "C16": " TRANSLATOR (second kind of tie, for this table-like code): before C16's obligations are built, lean/translate_formats.py reads the per-format field selection of Node::to_newick and the variants of NewickFormat from the CURRENT source and regenerates Props/C16Source.lean — the table as the code has it now plus the theorem that the model's keepName / keepLen / keepComment select exactly the same fields (model_table_is_source_table, by case analysis over the nine formats x tip / internal); a changed table breaks that obligation. When the function no longer has the shape the translator understands (a rewrite), the generated file says so and the table stays tied by the correspondence alone.",
  "C17": " A volume stream of 160 000 (thorough: 1.28 million) Yule / ETE3 requests of 48-80 tips with structural oracles only (an event of one step in a million shows).",
  "C18": " Also: taxa whose names concatenate ambiguously (a+bc = ab+c; the unary family x, xx, xxx), markup-like labels, collapse -v (same tree on stdout, count on stderr), and the generate subcommand of the unguarded binary (every shape, distribution, -b, -n/-o) judged by C17's oracles.",
  "C19": " Labels with markup / format-string / shell metacharacters; drawings of 1000-2600 leaves (wedges stay proportional however thin).",
